@@ -702,9 +702,9 @@ def state_dir_creation_is_idempotent(ctx, rid):
     I = prog.one(r"state::ProcessState::init")
     ba = BA.of(I)
     cds = ba.calls(r"std::fs::create_dir")
-    cont = set(ba.calls(r"state::LockManager::open"))
+    cont = set(anchors.lock_open_calls(prog, I))
     if not cont:
-        raise AnchorError("LockManager::open is not called from %s" % I.key)
+        raise AnchorError("the lock file is not opened from %s" % I.key)
     if not cds:
         n_all = ba.calls(r"std::fs::create_dir_all")
         ctx.ob(rid, "%s|state-dir-created" % I.key, bool(n_all), where=I.span, detail="create_dir_all (idempotent)" if n_all else "the state directory is not created in init")
@@ -1177,9 +1177,7 @@ def lock_file_opened_once(ctx, rid):
     prog = ctx.prog
     OPEN = r"std::fs::File::(open|create|create_new|options)|std::fs::OpenOptions::open|std::fs::read|std::fs::read_to_string|std::fs::metadata"
     lm = [b for k, b in prog.bodies.items() if k.startswith("state::LockManager::") or k.startswith("<state::LockManager as")]
-    if "state::LockManager::open" not in prog.bodies:
-        # the one opener was merged into its caller (or split up): the who-may-open table has lost its anchor
-        raise AnchorError("%s: state::LockManager::open not found: cannot tell the one legitimate open of the lock file from a second one" % rid)
+    OP = anchors.lock_opener(prog).key      # (raises when no single opener can be named)
     if not ctx.floor(rid, "LockManager bodies", len(lm), 2):
         return
     # (a) no LockManager method other than `open` opens a file
@@ -1187,14 +1185,14 @@ def lock_file_opened_once(ctx, rid):
         n = BA.of(b).calls(r"std::fs::OpenOptions::open|std::fs::File::(open|create|create_new)")
         if not n:
             continue
-        ok = b.key == "state::LockManager::open"
+        ok = b.key == OP
         ctx.ob(rid, "%s|opens-a-file" % b.key, ok, where=ctx.where(b, n[0]),
                detail="the one place the lock file is opened" if ok else "a LockManager method opens a file of its own: if that is the lock file, dropping the handle releases every lock this process holds")
-    ctx.ob(rid, "LockManager::open|present", any(b.key == "state::LockManager::open" and BA.of(b).calls(r"std::fs::OpenOptions::open|std::fs::File::(open|create)") for b in lm), where="", detail="LockManager::open opens the lock file")
+    ctx.ob(rid, "LockManager::open|present", bool(BA.of(prog.bodies[OP]).calls(r"std::fs::OpenOptions::open|std::fs::File::(open|create)")), where="", detail="%s opens the lock file" % common.short(OP))
     # (b) nowhere is a file opened by a path kept in the LockManager (wherever that code was moved or spliced to)
     hits = []
     for b in prog.bodies.values():
-        if b.key == "state::LockManager::open":
+        if b.key == OP:
             continue
         ba = BA.of(b)
         for i in ba.calls(r"std::fs::OpenOptions::open|std::fs::File::(open|create|create_new)"):
@@ -1229,19 +1227,20 @@ def lock_file_opened_once(ctx, rid):
     # flow into any other open
     I = prog.one(r"state::ProcessState::init")
     iba = BA.of(I)
-    lo = iba.calls(r"state::LockManager::open")
+    lo = anchors.lock_open_calls(prog, I)
     names = set()
     if lo:
-        src0 = op_local(I.blocks[lo[0]]["term"]["args"][0])
+        # (opener merged into init: the open call's own arguments - the options value and the path - are looked at)
+        srcs = [op_local(a) for a in I.blocks[lo[0]]["term"]["args"][:(1 if OP != I.key else 2)]]
         for (lits, tn) in [_str_lit_taint(I)]:
             for nm, locs in lits.items():
-                if src0 is not None and (src0 in locs or any(x in locs for x in iba.ref_chain(src0))):
+                if any(s0 is not None and (s0 in locs or any(x in locs for x in iba.ref_chain(s0))) for s0 in srcs):
                     names.add(nm)
     names = {n_ for n_ in names if n_ and n_ not in (".redo", ".", "..", "/")}
     ctx.ob(rid, "lock-file-name-located", bool(names), where=ctx.where(I, lo[0]) if lo else I.span, detail="the lock file is named by %s" % sorted(names))
     reopen = []
     for b in prog.bodies.values():
-        if b.key in ("state::LockManager::open",):
+        if b.key == OP and OP != I.key:
             continue
         ba = BA.of(b)
         opens = ba.calls(r"std::fs::OpenOptions::open|std::fs::File::(open|create|create_new)")
@@ -1249,7 +1248,7 @@ def lock_file_opened_once(ctx, rid):
             continue
         lits, _ = _str_lit_taint(b, only=names)
         for i in opens:
-            if b.key == I.key and lo and i == lo[0]:
+            if b.key == I.key and lo and i == lo[0] and len(lo) == 1:
                 continue
             for a in b.blocks[i]["term"]["args"]:
                 l = op_local(a)
